@@ -1338,6 +1338,10 @@ func (c *Compiler) compileMatchExpr(expr *ast.MatchExpr) error {
 
 	// Compile each case
 	for _, matchCase := range expr.Cases {
+		// Variables bound by a pattern are visible in the guard and the body
+		// of their case only.
+		c.symbolTable = c.symbolTable.EnterScope(BlockScope)
+
 		// Compile pattern matching for this case
 		jumpToNextCase, err := c.compilePatternMatch(matchCase.Pattern, matchVarIdx)
 		if err != nil {
@@ -1360,6 +1364,8 @@ func (c *Compiler) compileMatchExpr(expr *ast.MatchExpr) error {
 		if err := c.compileExpression(matchCase.Body); err != nil {
 			return err
 		}
+
+		c.symbolTable = c.symbolTable.Parent()
 
 		// Jump to end after executing case
 		jumpToEnd = append(jumpToEnd, len(c.code))
@@ -1408,6 +1414,10 @@ func (c *Compiler) compilePatternMatch(pattern ast.Pattern, matchVarIdx int) ([]
 	case ast.VariablePattern:
 		// Variable pattern always matches, just bind the value
 		c.emitWithOperand(vm.OpLoadVar, uint32(matchVarIdx))
+		if _, visible := c.symbolTable.Resolve(p.Name); visible {
+			// one flat variable store: the binding would overwrite that variable
+			c.limitations = append(c.limitations, Limitation{Construct: "pattern variable " + p.Name + " shadows a variable"})
+		}
 		varIdx := c.addConstant(vm.StringValue{Val: p.Name})
 		c.symbolTable.Define(p.Name, varIdx)
 		c.emitWithOperand(vm.OpStoreVar, uint32(varIdx))
